@@ -176,6 +176,15 @@ def make_case(r, jobs=None):
     strat = r.choice(['ddmin', 'hierarchical', 'hybrid'])
     j = jobs or r.choice([2, 4, 8, 16])
     opts = ['--strategy', strat, '-j', str(j), '--timeout', '20']
+    if r.random() < 0.3:
+        # stray atoms and literals between the commands (top-level leaves):
+        # erasing one is an accepted step that removes no s-expression
+        lines = text.splitlines()
+        for k in range(r.randint(1, 4)):
+            lines.insert(r.randint(0, len(lines)),
+                         r.choice([f'stray{k}', f'"top {k}"', f'|q {k}|',
+                                   f':kw{k}', str(40 + k)]))
+        text = '\n'.join(lines) + '\n'
     erase_only = r.random() < 0.35
     if erase_only:
         opts += ['--disable-all', '--erase-node']
